@@ -317,7 +317,10 @@ fn run_m<M: RawMutex + 'static>(cfg: &Cfg, ops: &[Op], run: &mut Run) {
                 if v.id != m.pubs[latest as usize] {
                     run.violate("C13", "stale-state", format!("{} returned v{} but the most recently published state is v{}", $what, v.id, m.pubs[latest as usize]));
                 }
-                if q >= latest {
+                if q >= latest && m.closed {
+                    // C11: after the close a receiver that has seen everything gets None forever
+                    run.violate2("C13", "C11", "not-newer-after-close", format!("{} returned a state on a closed channel although the id passed in already denotes the latest publication", $what));
+                } else if q >= latest {
                     run.violate("C13", "not-newer", format!("{} returned a state although the id passed in already denotes the latest publication", $what));
                 }
                 if !(sid > req) {
